@@ -54,10 +54,8 @@ func c03MapTNode(n parquet.Node, t reflect.Type, sb *strings.Builder) bool {
 		return false
 	}
 	sb.WriteString(",")
-	// an optional non-pointer map value gets no optional wrapper in writeRowsFuncOfMap: outside the model
-	if v := kv.Fields()[1]; v.Optional() && t.Elem().Kind() != reflect.Ptr {
-		return false
-	}
+	// an optional non-pointer map value (parquet-value:",optional") gets the optional wrapper in
+	// writeRowsFuncOfMap like a struct field does (since the round-4 repair)
 	return c03TNode(kv.Fields()[1], t.Elem(), true, sb)
 }
 
@@ -86,7 +84,8 @@ func c03FieldType(t reflect.Type, name string) (reflect.Type, bool) {
 // c03TNode renders the wrapper composition writeRowsFuncOf builds for the Go type t on schema
 // node n in the text form of the Lean model:
 // F required leaf | Z optional non-pointer leaf | S(..) struct | P(x) pointer | R(x) slice |
-// L(x) slice with the list tag | Q(x) optional + list | M(k,v) map | W(k,v) optional map.
+// L(x) slice with the list tag | Q(x) optional + list | M(k,v) map | W(k,v) optional map |
+// T(..) non-pointer struct with the optional tag.
 // ok = false: shape outside the model.
 func c03TNode(n parquet.Node, t reflect.Type, asIs bool, sb *strings.Builder) bool {
 	switch {
@@ -110,6 +109,11 @@ func c03TNode(n parquet.Node, t reflect.Type, asIs bool, sb *strings.Builder) bo
 		case n.Leaf() && t.Kind() != reflect.Interface && t.Kind() != reflect.Map:
 			sb.WriteString("Z")
 			return true
+		case !n.Leaf() && t.Kind() == reflect.Struct && !c03IsMap(n) && !c03IsList(n):
+			// a non-pointer struct with the optional tag: bitmap branch of writeRowsFuncOfOptional
+			// (null index of the struct type) over writeRowsFuncOfStruct
+			sb.WriteString("T(")
+			return c03TFields(n, t, sb)
 		}
 		return false
 	case asIs && n.Repeated():
@@ -147,18 +151,23 @@ func c03TNode(n parquet.Node, t reflect.Type, asIs bool, sb *strings.Builder) bo
 			return false
 		}
 		sb.WriteString("S(")
-		for i, f := range n.Fields() {
-			if i > 0 {
-				sb.WriteString(",")
-			}
-			ft, ok := c03FieldType(t, f.Name())
-			if !ok || !c03TNode(f, ft, true, sb) {
-				return false
-			}
-		}
-		sb.WriteString(")")
-		return true
+		return c03TFields(n, t, sb)
 	}
+}
+
+// c03TFields renders the field writers of writeRowsFuncOfStruct and the closing parenthesis.
+func c03TFields(n parquet.Node, t reflect.Type, sb *strings.Builder) bool {
+	for i, f := range n.Fields() {
+		if i > 0 {
+			sb.WriteString(",")
+		}
+		ft, ok := c03FieldType(t, f.Name())
+		if !ok || !c03TNode(f, ft, true, sb) {
+			return false
+		}
+	}
+	sb.WriteString(")")
+	return true
 }
 
 func c03StreamsText(s *gen.Shredder, cols [][]gen.Triple) string {
@@ -185,7 +194,7 @@ func RunC03TypedMirror(ctx *core.Ctx) {
 	ncases := ctx.Scale(8, 80)
 	var wg sync.WaitGroup
 	sem := make(chan struct{}, 16)
-	for _, e := range append(c03Types(), gen.MapCatalog...) {
+	for _, e := range append(append(c03Types(), gen.MapCatalog...), gen.MapValueOptCatalog...) {
 		var tsb strings.Builder
 		if e.Type.Kind() != reflect.Struct || !c03TNode(e.Schema, e.Type, false, &tsb) {
 			ctx.Hist("typedmirror-type", "outside the wrapper grammar of the model")
